@@ -433,6 +433,11 @@ def run_harness(unit, variant, h, tier='quick', keep=False):
     r['obligations'] = obs
     r['failed'] = failed
     r['n_loop_inv'] = sum(1 for o in obs if 'loop_invariant' in (o['name'] or '') or 'loop invariant' in (o['desc'] or ''))
+    undefd = [o for o in failed if 'undefined function should be unreachable' in (o['desc'] or '')]
+    if undefd:
+        # the code under proof calls a function that has neither an extracted body nor a contract in this unit: nothing is decided
+        r.update(status='infra', reason='call to a function without body and without contract (%s): extend the unit (bodies / contract) before trusting this harness' % undefd[0]['name'])
+        return r
     unw = [o for o in failed if '.unwind.' in (o['name'] or '') or 'unwinding assertion' in (o['desc'] or '') or (o['desc'] or '').startswith('model:') or (o['desc'] or '').startswith('harness:')]
     if unw and not h.get('unwind_is_property'):
         # a loop needs more iterations than the harness allows: the bound is too small, nothing is decided
